@@ -1035,10 +1035,19 @@ def graph_pop(
   flat_states: tuple[dict[PathParts, StateLeaf], ...] = tuple(
     {} for _ in predicates
   )
-  _graph_pop(node, id_to_index, path_parts, flat_states, predicates)
+  pending: list[tuple[tp.Any, tp.Any, tp.Any]] = []
+  _graph_pop(node, id_to_index, path_parts, flat_states, predicates, pending)
+  _apply_pending_pops(pending)
   return tuple(
     statelib.from_flat_state(flat_state) for flat_state in flat_states
   )
+
+
+def _apply_pending_pops(pending) -> None:
+  # the removals are applied only after the whole graph was visited without an
+  # error, so that a rejected pop leaves the graph as it was.
+  for node_impl, node, name in pending:
+    node_impl.pop_key(node, name)
 
 
 def _graph_pop(
@@ -1047,6 +1056,7 @@ def _graph_pop(
   path_parts: PathParts,
   flat_states: tuple[dict[PathParts, StateLeaf], ...],
   predicates: tuple[filterlib.Predicate, ...],
+  pending: list[tuple[tp.Any, tp.Any, tp.Any]],
 ) -> None:
   if not is_node(node):
     raise RuntimeError(f'Unsupported type: {type(node)}, this is a bug.')
@@ -1068,6 +1078,7 @@ def _graph_pop(
         path_parts=(*path_parts, name),
         flat_states=flat_states,
         predicates=predicates,
+        pending=pending,
       )
       continue
     elif not is_node_leaf(value):
@@ -1079,7 +1090,7 @@ def _graph_pop(
         raise ValueError(
           f'Cannot pop key {name!r} from node of type {type(node).__name__}'
         )
-      node_impl.pop_key(node, name)
+      pending.append((node_impl, node, name))
       continue
 
     node_path = (*path_parts, name)
@@ -1094,7 +1105,7 @@ def _graph_pop(
             f'Cannot pop key {name!r} from node of type {type(node).__name__}'
           )
         id_to_index[id(value)] = len(id_to_index)
-        node_impl.pop_key(node, name)
+        pending.append((node_impl, node, name))
         if isinstance(value, Variable):
           value = value.to_state()
         state[node_path] = value  # type: ignore[index] # mypy is wrong here?
@@ -2310,13 +2321,16 @@ def pop(
   flat_states: tuple[dict[PathParts, StateLeaf], ...] = tuple(
     {} for _ in predicates
   )
+  pending: list[tuple[tp.Any, tp.Any, tp.Any]] = []
   _graph_pop(
     node=node,
     id_to_index=id_to_index,
     path_parts=path_parts,
     flat_states=flat_states,
     predicates=predicates,
+    pending=pending,
   )
+  _apply_pending_pops(pending)
   states = tuple(
     statelib.from_flat_state(flat_state) for flat_state in flat_states
   )
